@@ -88,17 +88,7 @@ pub enum Status {
     Setup(String),
 }
 
-#[derive(Clone, Debug, PartialEq)]
-pub struct EngineOut {
-    pub error: Option<String>,
-    pub has_row: bool,
-    pub columns: Vec<String>,
-    /// Debug rendering of every Value, row by row
-    pub rows: Vec<Vec<String>>,
-    pub printed: Vec<String>,
-    pub updated: bool,
-    pub reached_limit: bool,
-}
+pub use crate::seam::EngineOut;
 
 #[derive(Clone, Debug)]
 pub struct WorldResult {
@@ -198,7 +188,6 @@ struct DriverOut {
     status: Status,
     total_lines: u64,
     total_result_rows: u64,
-    engine: Vec<EngineOut>,
 }
 
 fn setup(spec: &WorldSpec) -> Result<(Tables, Statement), String> {
@@ -222,7 +211,7 @@ fn setup(spec: &WorldSpec) -> Result<(Tables, Statement), String> {
 }
 
 fn drive(spec: &WorldSpec, running: Arc<AtomicBool>) -> DriverOut {
-    let mut out = DriverOut { status: Status::Ok, total_lines: 0, total_result_rows: 0, engine: Vec::new() };
+    let mut out = DriverOut { status: Status::Ok, total_lines: 0, total_result_rows: 0 };
     let (tables, statement) = match setup(spec) {
         Ok(x) => x,
         Err(err) => {
@@ -340,11 +329,11 @@ fn drive(spec: &WorldSpec, running: Arc<AtomicBool>) -> DriverOut {
                                 })
                                 .unwrap_or_default();
                             }
-                            out.engine.push(eo);
+                            seam::with_world(|w| w.engine.push(eo));
                         }
                         Err(err) => {
                             eo.error = Some(format!("{}", err));
-                            out.engine.push(eo);
+                            seam::with_world(|w| w.engine.push(eo));
                             out.status = Status::Err(format!("{}", err));
                             return out;
                         }
@@ -421,9 +410,9 @@ pub fn run_world(spec: &WorldSpec) -> WorldResult {
             let result = std::panic::catch_unwind(std::panic::AssertUnwindSafe(move || drive(&spec3, running2)));
             let _ = std::io::stdout().flush();
             let world = seam::uninstall();
-            let (status, total_lines, total_result_rows, engine) = match result {
-                Ok(out) => (out.status, out.total_lines, out.total_result_rows, out.engine),
-                Err(_) => (Status::Panic(world.panic_msg.clone().unwrap_or_else(|| "panic".to_owned())), 0, 0, Vec::new()),
+            let (status, total_lines, total_result_rows) = match result {
+                Ok(out) => (out.status, out.total_lines, out.total_result_rows),
+                Err(_) => (Status::Panic(world.panic_msg.clone().unwrap_or_else(|| "panic".to_owned())), 0, 0),
             };
             let world = *world;
             let res = WorldResult {
@@ -437,7 +426,7 @@ pub fn run_world(spec: &WorldSpec) -> WorldResult {
                 hung: false,
                 interrupted_at: world.interrupted_at,
                 terminating_eio: world.terminating_eio,
-                engine,
+                engine: world.engine,
                 getrandom_calls: world.getrandom_calls,
                 enoent: world.enoent,
             };
